@@ -1,11 +1,10 @@
 import AC.Props.C10
-import AC.BigintsTie
 open AC.Props.C10
 #print axioms C10_optimize
 #print axioms C10_not_longer
 #print axioms C10_invariant
 #print axioms C10_uses_unique
-#print axioms AC.BigintsTie.pruneuses_tie
+#print axioms AC.OptTie.pruneuses_tie
 #print axioms C10_src_optimize
 #print axioms C10_src_total
 #print axioms AC.OptTie.optimize_tie
